@@ -212,10 +212,12 @@ reg("C10", harness="c10_bound", level="model_checking", deadline=(360, 1800), ex
                "sequences of non-empty output chunk sizes: every path reaches ZSTATE_END, every call progresses (level 0 also with the RFC "
                "fixed tables and with a hostile custom table that expands the input). (ii-b) the state graph with the input arriving in "
                "several pieces ({0,1,8,rest} x output {0,1,2,5,10,rest} x flush kinds x late end_of_stream): no call writes beyond avail_out "
-               "(guard pages) and counters equal bytes moved on every transition. (iii) invalid level/flush/"
+               "(guard pages) and counters equal bytes moved on every transition. (ii-c) multi-block streams with block-type transitions "
+               "(KiBs of text + incompressible + text, minimum level buffer): EVERY first-output-buffer size up to the stream size and every uniform "
+               "buffer size up to 700, guard page behind each buffer, counters per call, final stream decoded. (iii) invalid level/flush/"
                "level_buf combinations are refused with a documented code before any output.",
     level_note="termination is decided for the listed inputs and chunk alphabet {1,2,7,8,9,15,16,17,rest}; trusted: ref/ref_inflate.c",
-    runs=[dict(flavour="sim", part="oneshot"), dict(flavour="sim", part="termination"), dict(flavour="sim", part="space"), dict(flavour="sim", part="params")],
+    runs=[dict(flavour="sim", part="oneshot"), dict(flavour="sim", part="termination"), dict(flavour="sim", part="space"), dict(flavour="sim", part="mixed"), dict(flavour="sim", part="params")],
     rule="case = (input, level, wrapper, flush, cpu, avail_out); state/transition as in C07 for the termination graphs; distinct_nontrivial = "
          "distinct successful streams, graphs and parameter cases.")
 
